@@ -81,6 +81,27 @@ extern "C" void verif_harness() {
       double l = symd("rlo"), u = symd("rhi"); SYM_ASSUME(l > lo && u < hi && u - l > 0.001);
       if (!isUniformParent) { double m = dynamic_cast<TwoPiece&>(*d).m_; SYM_ASSUME((l - m > 0.001 || m - l > 0.001) && (u - m > 0.001 || m - u > 0.001)); }   /* the 1e-12 precision adjustments next to the kink are outside the claim */ d->restrictToConstraint(IntervalConstraint(l, u, true, true)); }
     checkPartition(*d, nn, median || scheme != 1, "after the step");    // (equal-interval classes are valued at interval midpoints, not class means)
+  } else if (which == 3) {
+    // ---- exponential families, continuous level (one class, so the discretiser's value-adjustment thresholds play no part): cumulative and quantile functions after a history step ----
+    int fam = __sym_choose("family", 0, 1); double la = sympos("lambda"), tp = sympos("truncation"); SYM_ASSUME(la > 0.01 && la < 100 && tp > 0.01 && tp < 100);
+    unique_ptr<AbstractDiscreteDistribution> d; if (fam == 0) d.reset(new ExponentialDiscreteDistribution(1, la)); else d.reset(new TruncatedExponentialDiscreteDistribution(1, la, tp));
+    int op = __sym_choose("then", 0, fam == 0 ? 1 : 4);     // 0 nothing, 1 new rate, 2 new truncation point, 3 both at once, 4 truncation point then rate
+    double la2 = sympos("lambda2"), tp2 = sympos("truncation2"); SYM_ASSUME(la2 > 0.01 && la2 < 100 && tp2 > 0.01 && tp2 < 100); SYM_ASSUME(la2 - la > 1e-6 || la - la2 > 1e-6); SYM_ASSUME(tp2 - tp > 1e-6 || tp - tp2 > 1e-6);
+    if (op == 1 || op == 4) { if (op == 4) { d->setParameterValue("tp", tp2); tp = tp2; } d->setParameterValue("lambda", la2); la = la2; }
+    else if (op == 2) { d->setParameterValue("tp", tp2); tp = tp2; }
+    else if (op == 3) { ParameterList pl; pl.addParameter(Parameter(d->getNamespace() + "tp", tp2)); pl.addParameter(Parameter(d->getNamespace() + "lambda", la2)); d->matchParametersValues(pl); tp = tp2; la = la2; }
+    SYM_ASSERT_EQ(d->getParameterValue("lambda"), la, "rate parameter differs from the value set"); if (fam == 1) { SYM_ASSERT_EQ(d->getParameterValue("tp"), tp, "truncation parameter differs from the value set"); SYM_ASSERT_EQ(d->getUpperBound(), tp, "support does not end at the truncation point"); }
+    double x = sympos("x"), y = x + sympos("dx"); if (fam == 1) SYM_ASSUME(y < tp);
+    double Fx = d->pProb(x), Fy = d->pProb(y);
+    SYM_ASSERT(Fx >= 0 && Fx <= 1 && Fy >= 0 && Fy <= 1, "cumulative function leaves [0,1] inside the support"); SYM_ASSERT(Fx <= Fy, "cumulative function is not monotone");
+    SYM_ASSERT(Fx < 1 && Fy < 1, "cumulative function reaches 1 before the end of the support");
+    SYM_ASSERT_EQ(d->qProb(Fx), x, "quantile of the cumulative value is not the point");
+    if (fam == 1) { SYM_ASSERT(d->pProb(tp) == 1.0, "cumulative function is not 1 at the truncation point"); SYM_ASSERT_EQ(d->qProb(1.0), tp, "quantile of 1 is not the truncation point"); }
+    SYM_ASSERT(d->pProb(0.0) == 0.0, "cumulative function is not 0 at the lower end");
+    double p = sympos("p"); SYM_ASSUME(p < 1); double q = d->qProb(p); SYM_ASSERT(q >= 0, "quantile is negative"); if (fam == 1) SYM_ASSERT(q <= tp, "quantile lies beyond the truncation point");
+    SYM_ASSERT_EQ(d->pProb(q), p, "cumulative value of the quantile is not the probability");
+    SYM_ASSERT(d->getNumberOfCategories() == 1, "class count changed"); SYM_ASSERT_EQ(d->getProbability((size_t)0), 1.0, "single class does not carry the whole mass");
+    double c0 = d->getCategory(0); SYM_ASSERT(c0 >= 0, "class value below the support"); if (fam == 1) SYM_ASSERT(c0 <= tp, "class value beyond the truncation point");
   } else {
     // ---- compound and user-specified distributions: normalisation and cumulative consistency ----
     int kind = __sym_choose("kind", 0, 3);
@@ -91,13 +112,21 @@ extern "C" void verif_harness() {
       InvariantMixedDiscreteDistribution d(unique_ptr<DiscreteDistributionInterface>(new UniformDiscreteDistribution((unsigned)n, a, a + w)), pinv, 0.0); checkNormalised(d, n + 1, "invariant-mixed");
       SYM_ASSERT(d.getCategory(0) == 0.0, "the invariant class is not the first class"); SYM_ASSERT_EQ(d.getProbability((size_t)0), pinv, "the invariant class does not carry the invariant proportion");
       UniformDiscreteDistribution u((unsigned)n, a, a + w); for (int i = 0; i < n; i++) { SYM_ASSERT_EQ(d.getCategory(i + 1), u.getCategory(i), "variable classes differ from the sub-distribution's"); SYM_ASSERT_EQ(d.getProbability((size_t)(i + 1)), (1 - pinv) * u.getProbability((size_t)i), "variable class probability is not (1-p) times the sub-distribution's"); } }
-    else { int n1 = __sym_choose("classes1", 1, 2), n2 = __sym_choose("classes2", 1, 2); double a = sympos("min1"), w = sympos("width1"), a2 = a + w + sympos("gap") + 0.01, w2 = sympos("width2"); SYM_ASSUME(w > 0.001 && w2 > 0.001);
-      double m = sympos("mix"); SYM_ASSUME(m < 1);
-      vector<unique_ptr<DiscreteDistributionInterface>> comps; comps.emplace_back(new UniformDiscreteDistribution((unsigned)n1, a, a + w)); comps.emplace_back(new UniformDiscreteDistribution((unsigned)n2, a2, a2 + w2));
-      vector<double> pr{m, 1 - m};
-      MixtureOfDiscreteDistributions d(comps, pr); checkNormalised(d, n1 + n2, "mixture");
-      UniformDiscreteDistribution u1((unsigned)n1, a, a + w), u2((unsigned)n2, a2, a2 + w2);
-      for (int i = 0; i < n1; i++) SYM_ASSERT_EQ(d.getProbability((size_t)i), m * u1.getProbability((size_t)i), "mixture: class probability is not weight times component probability");
-      for (int i = 0; i < n2; i++) SYM_ASSERT_EQ(d.getProbability((size_t)(n1 + i)), (1 - m) * u2.getProbability((size_t)i), "mixture: class probability is not weight times component probability"); }
+    else { int nc = __sym_choose("components", 2, 3); vector<int> ncl(nc); vector<double> lo(nc), wd(nc), wt(nc); double S = 0, x = sympos("min1");
+      for (int k = 0; k < nc; k++) { ncl[k] = __sym_choose(("classes" + to_string(k + 1)).c_str(), 1, 2); lo[k] = x; wd[k] = sympos("width" + to_string(k + 1)); SYM_ASSUME(wd[k] > 0.001); x = x + wd[k] + sympos("gap" + to_string(k + 1)) + 0.01; wt[k] = sympos("weight" + to_string(k + 1)); S += wt[k]; }
+      vector<unique_ptr<DiscreteDistributionInterface>> comps; vector<double> pr(nc); for (int k = 0; k < nc; k++) { comps.emplace_back(new UniformDiscreteDistribution((unsigned)ncl[k], lo[k], lo[k] + wd[k])); pr[k] = wt[k] / S; }
+      MixtureOfDiscreteDistributions d(comps, pr);
+      // one history step: nothing, an update of one stick-breaking parameter, of all of them at once, a copy followed by an update of the copy, or a change of the class count
+      int op = __sym_choose("then", 0, 4); vector<double> th(nc - 1); { double y = 1; for (int k = 0; k + 1 < nc; k++) { th[k] = pr[k] / y; y -= pr[k]; } }
+      unique_ptr<MixtureOfDiscreteDistributions> cp; MixtureOfDiscreteDistributions* D = &d;
+      if (op == 1 || op == 3) { int k = __sym_choose("theta", 1, nc - 1); double t = symd("newTheta"); SYM_ASSUME(t > 0.001 && t < 0.999); SYM_ASSUME(t - th[k - 1] > 1e-6 || th[k - 1] - t > 1e-6); if (op == 3) { cp.reset(d.clone()); D = cp.get(); } D->setParameterValue("theta" + to_string(k), t); th[k - 1] = t; }
+      else if (op == 2) { ParameterList pl; for (int k = 1; k < nc; k++) { double t = symd("newTheta" + to_string(k)); SYM_ASSUME(t > 0.001 && t < 0.999); SYM_ASSUME(t - th[k - 1] > 1e-6 || th[k - 1] - t > 1e-6); pl.addParameter(Parameter("Mixture.theta" + to_string(k), t)); th[k - 1] = t; } d.matchParametersValues(pl); }
+      else if (op == 4) { int nn = __sym_choose("newClasses", 1, 2); d.setNumberOfCategories((size_t)nn); for (int k = 0; k < nc; k++) ncl[k] = nn; }
+      vector<double> w(nc); { double y = 1; for (int k = 0; k + 1 < nc; k++) { w[k] = th[k] * y; y *= 1 - th[k]; } w[nc - 1] = y; }
+      int tot = 0; for (int k = 0; k < nc; k++) tot += ncl[k]; checkNormalised(*D, tot, "mixture");
+      for (int k = 0; k < nc; k++) SYM_ASSERT_EQ(D->getNProbability((size_t)k), w[k], "mixture: component weight is not the stick-breaking weight of the current parameters");
+      int off = 0; for (int k = 0; k < nc; k++) { UniformDiscreteDistribution u((unsigned)ncl[k], lo[k], lo[k] + wd[k]);
+        for (int i = 0; i < ncl[k]; i++) SYM_ASSERT_EQ(D->getProbability((size_t)(off + i)), w[k] * u.getProbability((size_t)i), "mixture: class probability is not weight times component probability"); off += ncl[k]; }
+      if (op == 3) { double y = 1; for (int k = 0; k < nc; k++) SYM_ASSERT_EQ(d.getNProbability((size_t)k), pr[k], "mixture: updating a copy changed the original's weights"); (void)y; } }
   }
 }
